@@ -45,6 +45,7 @@ CONSTANTS
                 \*        (every timing at once -- the safety configs).  TRUE: they fire when due.
   Urgent,       \* TRUE: zero-time steps precede Tick (bounded-time configs)
   DupWrite,     \* TRUE: a downstream may attempt a second WriteMsg on the same writer
+  EnvOn,        \* FALSE: no deadline / cancellation / generation timeout (quiet protocol runs for simulation)
   Defensive,    \* TRUE: a caller that does not test generationTimedOut itself and relies on
                 \*       Regroup's own tombstone rule (API-level behaviours for the waitgroup replay;
                 \*       Cache.ServeDNS is Defensive = FALSE)
@@ -194,7 +195,7 @@ DoneGeneration(r) ==
                  arrival, cx, wrVars, downs, now>>
 
 (* the generation context's deadline fires: Done closes, Err = DeadlineExceeded *)
-TimeoutDue(g) == g <= ngen /\ ~gDone[g] /\ (Timed => now >= gBorn[g] + W)
+TimeoutDue(g) == EnvOn /\ g <= ngen /\ ~gDone[g] /\ (Timed => now >= gBorn[g] + W)
 Timeout(g) ==
   /\ TimeoutDue(g)
   /\ gDone' = [gDone EXCEPT ![g] = TRUE]
@@ -203,7 +204,7 @@ Timeout(g) ==
 
 (* ---------------------------- request context --------------------------- *)
 Active(r) == pc[r] \notin {"idle", "fin"}
-DeadlineDue(r) == Active(r) /\ cx[r] = "live" /\ (Timed => now >= arrival[r] + D)
+DeadlineDue(r) == EnvOn /\ Active(r) /\ cx[r] = "live" /\ (Timed => now >= arrival[r] + D)
 Deadline(r) ==
   /\ DeadlineDue(r)
   /\ cx' = [cx EXCEPT ![r] = "deadline"]
@@ -211,7 +212,7 @@ Deadline(r) ==
 
 (* the client goes away (transport canceled) *)
 Cancel(r) ==
-  /\ Active(r) /\ cx[r] = "live" /\ r \notin Internal
+  /\ EnvOn /\ Active(r) /\ cx[r] = "live" /\ r \notin Internal
   /\ cx' = [cx EXCEPT ![r] = "canceled"]
   /\ UNCHANGED <<wgVars, storeVars, reqVars, wrVars, downs, now>>
 
